@@ -190,6 +190,9 @@ func (p *pair) step(f fatalfer, m *message) {
 			tr, m.HTTP, p.key, mo.text, mo.rep.raw, to.text, to.rep.raw, mo.log)
 	}
 
+	p.main.context, p.twin.context = ctx, ctx
+	defer func() { p.main.context, p.twin.context = nil, nil }()
+
 	if mo.rep.none {
 		f.Fatalf("no answer at all (connection closed or empty HTTP body)%s", ctx())
 	}
